@@ -54,6 +54,9 @@ func checkC06(r *Report, p *Program) {
 	oneWritePerChild(r, p, "R06.6")
 	deleteTable(r, p, "R06.7")
 	strategyMapTable(r, p, "R06.8")
+	lastAppliedIsHookAnswer(r, p, "R06.9")
+	// no memo makes a later sync skip the comparison (shared with C01)
+	r01_ssa(r, p)
 }
 
 // R06.1 method decision table.
@@ -831,4 +834,85 @@ func isSinkOrThinWrapper(p *Program, in ssa.Instruction, verb string) bool {
 		}
 	}
 	return false
+}
+
+// lastAppliedIsHookAnswer: what is recorded as last-applied (and fed to the three-way merge as "desired") is the
+// child as the hook returned it — metacontroller's own additions (controller reference …) are made afterwards.
+// The rollout gate compares observed children with ApplyUpdate(observed, the hook's raw child): a last-applied
+// record that contains additions the raw child lacks makes every child look "not updated yet".
+func lastAppliedIsHookAnswer(r *Report, p *Program, rule string) {
+	r.Rule(rule, "updateChildren: no setter is applied to the desired child before it is handed to ApplyUpdate / SetLastApplied in the same iteration (own additions come after the last-applied record)")
+	r.Floor(rule, 2)
+	f := fn(r, p, rule, "controller/common.updateChildren")
+	if f == nil {
+		return
+	}
+	var loop *engine.RangeLoop
+	for _, l := range engine.RangeLoops(f) {
+		if E(l.X) == "p4" || strings.HasPrefix(E(l.X), "p4") {
+			loop = l
+		}
+	}
+	if loop == nil {
+		for _, l := range engine.RangeLoops(f) {
+			for _, cs := range callsTo(f, false, "controller/common.ApplyUpdate") {
+				if l.Contains(cs.Instr.(ssa.Instruction)) {
+					loop = l
+				}
+			}
+		}
+	}
+	if loop == nil {
+		r.Check(rule, FK(f), p.Pos(f.Pos()), false, "", "the loop over the desired children was not found")
+		return
+	}
+	obj := loop.Val
+	var muts []ssa.Instruction
+	for _, m := range engine.LocalMutations(f, obj) {
+		if !loop.Contains(m.Instr) {
+			continue
+		}
+		if ci, isCI := m.Instr.(ssa.CallInstruction); isCI {
+			k := engine.CallKey(ci.Common())
+			if strings.HasSuffix(k, "apply.SetLastApplied") || strings.HasSuffix(k, "controller/common.ApplyUpdate") {
+				continue
+			}
+			if strings.HasPrefix(m.What, "pass→") {
+				continue // handed to a callee: the write sinks and helpers, judged by their own rules
+			}
+		}
+		muts = append(muts, m.Instr)
+	}
+	n := 0
+	for _, cs := range callsTo(f, false, "controller/common.ApplyUpdate", "apply.SetLastApplied") {
+		ci := cs.Instr.(ssa.Instruction)
+		if !loop.Contains(ci) {
+			continue
+		}
+		uses := false
+		for _, a := range cs.Common().Args {
+			if engine.SameValue(a, obj) || strings.Contains(E(a), "("+E(obj)+")") {
+				uses = true
+			}
+		}
+		if !uses {
+			continue
+		}
+		n++
+		ok, why := true, ""
+		for _, m := range muts {
+			if m == ci {
+				continue
+			}
+			w := engine.Query{Fn: f, From: []engine.Point{engine.After(m)}, Target: func(x ssa.Instruction) bool { return x == ci },
+				CutInstr: func(x ssa.Instruction) bool { return x.Block() == loop.Header }}.Find()
+			if w != nil {
+				ok, why = false, "the desired child is edited at "+p.InstrPos(m)+" before it is recorded as last-applied / merged here: the record no longer equals what the hook returned, and comparisons against the hook's raw child (rollout gate) never match"
+			}
+		}
+		r.Check(rule, sf("%s→%s#%d[hook-answer-unedited]", Short(FK(f)), Short(cs.Key), n), p.InstrPos(ci), ok, "no own edit precedes the last-applied record", why)
+	}
+	if n == 0 {
+		r.Check(rule, FK(f), p.Pos(f.Pos()), false, "", "no ApplyUpdate/SetLastApplied of the desired child in the loop")
+	}
 }
